@@ -71,6 +71,18 @@ def _gen_stats(rng, N, c, d, means, variances):
     return out
 
 
+def _with_empty(rng, stats):
+    """Empty utterances (all frames removed by VAD) are valid statistics: all-zero counts."""
+    if len(stats) > 3 and rng.random() < 0.15:
+        for _ in range(rng.randint(1, 2)):
+            i = rng.randrange(len(stats) - 1)  # not only in last position
+            z = stats[i]
+            stats[i] = {"n": [0.0] * len(z["n"]),
+                        "sum_px": [[0.0] * len(r) for r in z["sum_px"]],
+                        "sum_pxx": [[0.0] * len(r) for r in z["sum_pxx"]], "t": 0, "ll": 0.0}
+    return stats
+
+
 def _gen_layout(rng, N):
     r = rng.random()
     if r < 0.35:
@@ -104,7 +116,7 @@ def gen_case(rng, tier, kind=None, N=None, nc=None):
     case = {
         "kind": kind,
         "ubm": {"c": c, "means": L(means), "variances": L(variances), "weights": L(weights)},
-        "stats": _gen_stats(rng, N, c, d, means, variances),
+        "stats": _with_empty(rng, _gen_stats(rng, N, c, d, means, variances)),
         "y": y,
         "yform": rng.choice(["list", "array", "bag", "int32", "uint8", "tuple"]),
         "layout": _gen_layout(rng, N),
@@ -398,6 +410,7 @@ def run_case(case, replay=None):
     rec.probe("odd_partition_count", npart % 2 == 1 and npart > 1)
     rec.probe("even_partition_count", npart % 2 == 0)
     rec.probe("unsorted_labels", case["y"] != sorted(case["y"]))
+    rec.probe("zero_occupancy_statistics", any(not any(st["n"]) for st in case["stats"]))
     rec.probe("lazy_iterator_partitions", case.get("bagform") in ("concat_mapped", "generator"))
     rec.probe("mode_" + case["sched"]["mode"])
     rec.probe("fault_free_configuration", bool(case.get("fault_free")))
